@@ -1533,7 +1533,10 @@ fn exec(ctx: &mut RunCtx, w: &mut World, op: &Op) -> Step<()> {
                     } else if g != wv {
                         let wv2 = wv.clone();
                         let pat2 = pat.clone();
-                        let owner = refine_owner(w, *h, dir, *loc, owner, &move |fs, p| matches!(fs.list(p, pat2.as_deref(), false), Ok(x) if x == wv2));
+                        // "a localized listing equals the unlocalized listing of the localized directory"
+                        // is stated by C13 and implied by C14: either check reports it
+                        let refined = refine_owner(w, *h, dir, *loc, owner, &move |fs, p| matches!(fs.list(p, pat2.as_deref(), false), Ok(x) if x == wv2));
+                        let owner = if refined == "C14" && ctx.prop == "C13" { "C13" } else { refined };
                         let missing: Vec<&String> = wv.iter().filter(|x| !g.contains(x)).collect();
                         let extra: Vec<&String> = g.iter().filter(|x| !wv.contains(x)).collect();
                         return ctx.violation_for(
@@ -1596,7 +1599,8 @@ fn exec(ctx: &mut RunCtx, w: &mut World, op: &Op) -> Step<()> {
                 let owner = match &want {
                     Ok(wv) => {
                         let wv = wv.clone();
-                        refine_owner(w, *h, dir, *loc, owner, &move |fs, p| matches!(fs.subdirectories(p, false), Ok(x) if x == wv))
+                        let refined = refine_owner(w, *h, dir, *loc, owner, &move |fs, p| matches!(fs.subdirectories(p, false), Ok(x) if x == wv));
+                        if refined == "C14" && ctx.prop == "C13" { "C13" } else { refined }
                     }
                     Err(_) => owner,
                 };
